@@ -346,7 +346,10 @@ def cargo_build(crate, group, timeout=3600, bins=None):
         # checking an alternative checkout (seeded-change experiments): build a copy of the
         # harness (and of the sibling crates it refers to by relative path) whose path
         # dependencies point at that checkout, into a separate target directory
-        alt = os.path.join(WORK, "harness_alt")
+        # one private copy per vcheck process (concurrent HV_REPO runs must not collide)
+        alt = os.path.join(WORK, "harness_alt_%d" % os.getpid())
+        import atexit
+        atexit.register(shutil.rmtree, alt, True)
         shutil.rmtree(os.path.join(alt, crate), ignore_errors=True)
         for c in os.listdir(os.path.join(ROOT, "harness")):
             src = os.path.join(ROOT, "harness", c)
